@@ -8,15 +8,15 @@ open Rx Rx.Gen.SkipWhile
 def absSkipWhile (g : SkipWhileObserver) : St1 := .skipWhile g.predicate g.done_skipping
 
 theorem tie_SkipWhile_next (g : SkipWhileObserver) (v : Val) :
-    (SkipWhileObserver.next g v).map (fun r => (absSkipWhile r.1, r.2)) = some (St1.onNext (absSkipWhile g) v) := by
+    (SkipWhileObserver.next g v).map (fun r => (absSkipWhile r.1, r.2)) = some (Rs.lift (St1.onNext (absSkipWhile g) v)) := by
   rcases g with ⟨⟩ <;> rs_tie [SkipWhileObserver.next, absSkipWhile, St1.onNext]
 
 theorem tie_SkipWhile_error (g : SkipWhileObserver) (e : Err) :
-    (SkipWhileObserver.error g e).map (fun r => r.2) = some (St1.onError' (absSkipWhile g) e).2 := by
+    (SkipWhileObserver.error g e).map (fun r => r.2) = some ((St1.onError' (absSkipWhile g) e).2.map Rs.Ev.n) := by
   rcases g with ⟨⟩ <;> rs_tie [SkipWhileObserver.error, absSkipWhile, St1.onError']
 
 theorem tie_SkipWhile_complete (g : SkipWhileObserver) :
-    (SkipWhileObserver.complete g).map (fun r => r.2) = some (St1.onComplete' (absSkipWhile g)).2 := by
+    (SkipWhileObserver.complete g).map (fun r => r.2) = some ((St1.onComplete' (absSkipWhile g)).2.map Rs.Ev.n) := by
   rcases g with ⟨⟩ <;> rs_tie [SkipWhileObserver.complete, absSkipWhile, St1.onComplete']
 
 
